@@ -65,7 +65,10 @@ def run_case(case) -> list[Failure]:
     head, body = respgen.frame(content, case)
     decode = bool(case["decode"])
     expected = payload if decode else content
-    srv = respgen.OneShot(head + body, case.get("seg"), eof=(case["framing"] == "close"))
+    if case.get("cl_list") and case["framing"] != "cl":
+        raise core.InvalidCase
+    # (http.client cannot parse "N, N" and reads such a body until the server closes, so the server closes)
+    srv = respgen.OneShot(head + body, case.get("seg"), eof=(case["framing"] == "close" or bool(case.get("cl_list"))))
     sig = {"framing": case["framing"], "coded": bool([c for c in case.get("coding", []) if c != "identity"]), "decode": decode}
     if mixed:
         sig["mixed_families"] = True
@@ -226,6 +229,8 @@ def _hyp():
         if t[0] == "iter":
             decode = True
         c = mk(n, draw(st.integers(0, 50)), cod, members, framing, cs, ext, seg, decode, ops, t, via)
+        if framing == "cl" and draw(st.integers(0, 4)) == 0:
+            c["cl_list"] = True
         if framing == "chunked" and respgen.families(c) == {"A", "B"}:
             c["ops"] = []  # keep one reader family on a chunked response
             c["_dropped_mix"] = True
